@@ -232,7 +232,7 @@ def validate_chunks(ctx, trace, module, chunk, sigprefix):
         ctx.cov["traces_validated_against_impl"] += idx - 1
         if ev.get("ev") == "Norm":
             same = ev["raw"]["v"] == ev["norm"]["v"]
-            sig = "%s:name%x:%s->%s:%s" % (sigprefix, ev["name"], ev["raw"]["kind"], ev["norm"]["kind"], "class-or-conversion" if same else "payload")
+            sig = "%s:name%x:%s->%s:%s" % (sigprefix, ev["name"], ev["raw"]["kind"], ev["norm"]["kind"], ("target" if ev["raw"]["kind"] != ev["norm"]["kind"] else "conversion") if same else "payload")
             what = ("Attribute::value() of name 0x%x turned %s into %s" % (ev["name"], ev["raw"], ev["norm"])) if not same or ev["raw"]["kind"] == ev["norm"]["kind"] and False else \
                    ("value of name 0x%x: raw %s, normalised %s, conversions (udata/sdata/offset/u8/u16) %s: outside the value's class or not the zero/sign extension of the payload" %
                     (ev["name"], ev["raw"], ev["norm"], ev.get("conv")))
